@@ -9,6 +9,7 @@ import (
 	"fmt"
 	"math/rand/v2"
 	"sort"
+	"strconv"
 	"strings"
 	"testing"
 	"testing/synctest"
@@ -193,11 +194,18 @@ func runCase(t *testing.T, tr *hx.Trace, id int, r *rand.Rand, script []string) 
 			if r.IntN(3) == 0 {
 				ms = maxSize
 			}
-			header = fmt.Sprintf("case %d retention=%d maxsil=%d maxsize=%d", id, ret, maxsil, ms)
+			// one case in three runs the real Maintenance loop (GC + snapshot file every `maint`, final snapshot on stop);
+			// the period is off the half-second grid, so a tick never ties with an operation
+			maint := int64(0)
+			if r.IntN(3) == 0 {
+				maint = int64(2+r.IntN(6))*grid + 130*int64(time.Millisecond)
+			}
+			header = fmt.Sprintf("case %d retention=%d maxsil=%d maxsize=%d maint=%d", id, ret, maxsil, ms, maint)
 		}
 		h := silx.ParseHeader(header)
 		retention := silx.HInt(h, "retention", 0)
-		w := silx.NewWorld(1, time.Duration(retention), int(silx.HInt(h, "maxsil", 0)), int(silx.HInt(h, "maxsize", 0)))
+		w := silx.NewWorldMaint(1, time.Duration(retention), int(silx.HInt(h, "maxsil", 0)), int(silx.HInt(h, "maxsize", 0)), time.Duration(silx.HInt(h, "maint", 0)))
+		defer w.Close()
 		tr.Linef("%s", header)
 		if script != nil {
 			for _, l := range script[1:] {
@@ -206,10 +214,22 @@ func runCase(t *testing.T, tr *hx.Trace, id int, r *rand.Rand, script []string) 
 			return
 		}
 		g := &gen{r: r, w: w, retention: retention, setsOf: map[string][][]silx.Matcher{}}
-		do := func(line string) string {
+		do1 := func(line string) string {
 			obs := w.Exec(line)
 			tr.Linef("%s -> %s", line, obs)
 			return obs
+		}
+		do := func(line string) string {
+			// every maintenance tick up to the operation's instant happens (and is observed) first
+			f := strings.Fields(line)
+			if len(f) > 2 {
+				if at, err := strconv.ParseInt(f[2], 10, 64); err == nil {
+					for nt := w.NextTick(0); nt >= 0 && nt <= at; nt = w.NextTick(0) {
+						do1(fmt.Sprintf("mtick 0 %d", nt))
+					}
+				}
+			}
+			return do1(line)
 		}
 		nops := 10 + r.IntN(20)
 		for range nops {
@@ -249,7 +269,13 @@ func runCase(t *testing.T, tr *hx.Trace, id int, r *rand.Rand, script []string) 
 				}
 				do(fmt.Sprintf("query 0 %d %s %s %s", g.now, scan, sts, ls))
 			default:
-				do("reload 0")
+				if w.NextTick(0) >= 0 && r.IntN(3) > 0 {
+					// a restart through the files: shutdown snapshot of the Maintenance loop, next start loads it
+					do(fmt.Sprintf("mstop 0 %d", g.now))
+					do1("mload 0")
+				} else {
+					do("reload 0")
+				}
 			}
 		}
 	})
